@@ -32,6 +32,9 @@ use num_bigint::BigInt;
 /// Prevents a RLN ZK proof generated for one application to be re-used in another one.
 pub const RLN_IDENTIFIER: &[u8] = b"zerokit/rln/010203040506070809";
 
+/// Byte length of `[ proof<128> | root<32> | external_nullifier<32> | x<32> | y<32> | nullifier<32> ]`
+const PROOF_AND_VALUES_SIZE: usize = 128 + 5 * 32;
+
 /// The RLN object.
 ///
 /// It implements the methods required to update the internal Merkle Tree, generate and verify RLN ZK proofs.
@@ -798,6 +801,9 @@ impl RLN {
         // [ proof<128> | root<32> | external_nullifier<32> | x<32> | y<32> | nullifier<32> ]
         let mut input_byte: Vec<u8> = Vec::new();
         input_data.read_to_end(&mut input_byte)?;
+        if input_byte.len() < PROOF_AND_VALUES_SIZE {
+            return Err(Report::msg("serialized proof is too short"));
+        }
         let proof = ArkProof::deserialize_compressed(&mut Cursor::new(&input_byte[..128]))?;
 
         let (proof_values, _) = deserialize_proof_values(&input_byte[128..]);
@@ -957,6 +963,9 @@ impl RLN {
         let mut serialized: Vec<u8> = Vec::new();
         input_data.read_to_end(&mut serialized)?;
         let mut all_read = 0;
+        if serialized.len() < PROOF_AND_VALUES_SIZE + 8 {
+            return Err(Report::msg("serialized proof is too short"));
+        }
         let proof =
             ArkProof::deserialize_compressed(&mut Cursor::new(&serialized[..128].to_vec()))?;
         all_read += 128;
@@ -968,6 +977,9 @@ impl RLN {
         ))?;
         all_read += 8;
 
+        if serialized.len() - all_read < signal_len {
+            return Err(Report::msg("serialized proof is shorter than its signal length"));
+        }
         let signal: Vec<u8> = serialized[all_read..all_read + signal_len].to_vec();
 
         let verified = verify_proof(&self.verification_key, &proof, &proof_values)?;
@@ -1034,6 +1046,9 @@ impl RLN {
         let mut serialized: Vec<u8> = Vec::new();
         input_data.read_to_end(&mut serialized)?;
         let mut all_read = 0;
+        if serialized.len() < PROOF_AND_VALUES_SIZE + 8 {
+            return Err(Report::msg("serialized proof is too short"));
+        }
         let proof =
             ArkProof::deserialize_compressed(&mut Cursor::new(&serialized[..128].to_vec()))?;
         all_read += 128;
@@ -1045,6 +1060,9 @@ impl RLN {
         ))?;
         all_read += 8;
 
+        if serialized.len() - all_read < signal_len {
+            return Err(Report::msg("serialized proof is shorter than its signal length"));
+        }
         let signal: Vec<u8> = serialized[all_read..all_read + signal_len].to_vec();
 
         let verified = verify_proof(&self.verification_key, &proof, &proof_values)?;
@@ -1284,12 +1302,18 @@ impl RLN {
         // We serialize_compressed the two proofs, and we get the corresponding RLNProofValues objects
         let mut serialized: Vec<u8> = Vec::new();
         input_proof_data_1.read_to_end(&mut serialized)?;
+        if serialized.len() < PROOF_AND_VALUES_SIZE {
+            return Err(Report::msg("serialized proof is too short"));
+        }
         // We skip deserialization of the zk-proof at the beginning
         let (proof_values_1, _) = deserialize_proof_values(&serialized[128..]);
         let external_nullifier_1 = proof_values_1.external_nullifier;
 
         let mut serialized: Vec<u8> = Vec::new();
         input_proof_data_2.read_to_end(&mut serialized)?;
+        if serialized.len() < PROOF_AND_VALUES_SIZE {
+            return Err(Report::msg("serialized proof is too short"));
+        }
         // We skip deserialization of the zk-proof at the beginning
         let (proof_values_2, _) = deserialize_proof_values(&serialized[128..]);
         let external_nullifier_2 = proof_values_2.external_nullifier;
